@@ -2573,7 +2573,7 @@ class WCS(GWCSAPIMixin):
         gcrds = []
         cdelt = []
         bb = [bounding_box[k] for k in input_axes]
-        for (xmin, xmax), s in zip(bb, sampling):
+        for (xmin, xmax), s in zip(bb, [sampling[k] for k in input_axes]):
             npix = max(2, 1 + int(np.ceil(abs((xmax - xmin) / s))))
             gcrds.append(np.linspace(xmin, xmax, npix))
             cdelt.append((npix - 1) / (xmax - xmin) if xmin != xmax else 1)
